@@ -210,11 +210,13 @@ def compile : Nat → Nat → E → Option (List Ins)
   | 0, _, _ => none
   | fuel + 1, depth, e =>
     match e with
-    | .emit t none => some [.emit t]
+    | .emit t _ => some [.emit t]                 -- the shown value is not modelled here
     | .lit _ => some []
+    | .assign _ e => compile fuel depth e
     | .throw (.lit v) => some [.throw v]
     | .seq es => concatOpt (es.map (compile fuel depth))
-    | .call f [] => some [.call (f + 1)]          -- code 0 is the main chunk, definition f is code f+1
+    | .call f args =>                             -- code 0 is the main chunk, definition f is code f+1
+      if args.all (fun a => match a with | .lit _ => true | _ => false) then some [.call (f + 1)] else none
     | .native .each f (.mkList items) => some (items.map (fun _ => Ins.callNative (f + 1)))
     | .ret (.lit _) => some [.ret]
     | .brk => some [.brk]
